@@ -5,4 +5,13 @@ McActions == {"metric", "alert"}
 McIds == 1..3
 McFilters == {{"metric"}, {"metric", "alert"}}
 EmitSim == (TLCGet("level") = 16 \/ stopped) => PrintT(<<"BEH", ToJson(hist)>>)
+\* test purposes (breadth-first run over tiny constants): the shortest histories in which an endpoint is notified
+\* again after an earlier delivery to it failed (per failure kind, before and after housekeeping removed the victim)
+PurposeFilters == {{"metric"}}
+PurposeActions == {"metric"}
+ASSUME TLCSet(7, {})
+\* breadth-first, one worker: the first (= a shortest) history for every label is printed
+EmitPurpose == (hist # <<>> /\ hist[Len(hist)].act = "Report")
+               => LET fresh == hist[Len(hist)].sit \ TLCGet(7)
+                  IN fresh # {} => (PrintT(<<"BEH", ToJson(hist)>>) /\ TLCSet(7, TLCGet(7) \cup fresh))
 ====
